@@ -43,6 +43,17 @@ def build_harness():
         raise Infra("harness build failed:\n" + err[-4000:])
 
 
+HARNESS_TRACING_BIN = os.path.join(BUILD, "harness-target-tracing", "release", "rosu-verif-harness")
+
+
+def build_harness_tracing():
+    """second build of the harness with rosu-map's `tracing` feature on (C01's feature-set quantifier)"""
+    rc, out, err = sh(["cargo", "build", "--release", "--offline", "--features", "tracing",
+                       "--target-dir", os.path.join(BUILD, "harness-target-tracing")], cwd=HARNESS, timeout=1800)
+    if rc != 0:
+        raise Infra("harness (tracing) build failed:\n" + err[-4000:])
+
+
 def lake_build(targets, clean=False):
     """returns (ok, log). A failure here is *not* an infrastructure error: it means a proof
     or the model no longer checks."""
